@@ -257,6 +257,8 @@ Definition sm2_ct_from_der (inp : list N) : res (list N * list N * list N * list
 (* ------------------------------------------------------------------ SM2 keys *)
 Definition sm2_n : N := 0xFFFFFFFEFFFFFFFFFFFFFFFFFFFFFFFF7203DF6B21C6052B53BBF40939D54123.
 
+Record sm2_key : Type := { k_priv : list N; k_pub : list N }.      (* SM2_KEY: private scalar (32 bytes), public point x || y *)
+
 Section Keys.
   Variable pub_of : list N -> list N.      (* 32-byte d |-> the 64 bytes x || y of [d]G *)
   Variable pt_ok : list N -> bool.         (* 65 octets 04 || x || y: x, y < p, on the curve, not (0,0) *)
@@ -380,6 +382,26 @@ Section Keys.
     | Fault => Fault
     | _ => Err                            (* "!= 1": an absent SEQUENCE is an error here *)
     end.
+  (* ---------------------------------------------------------------- the WHOLE target object
+     An SM2_KEY has two fields.  A decoder that succeeds determines both, whatever the caller's
+     object held before: a public-key decoder stores the point and the private scalar 0
+     (sm2_z256_set_zero(key->private_key)), a private-key decoder stores d and [d]G. *)
+  Definition sm2_pubkey_from_der (inp : list N) : res (sm2_key * list N) :=
+    match sm2_pub_from_der inp with
+    | Ok (xy, rest) => Ok ({| k_priv := zeros 32; k_pub := xy |}, rest)
+    | Absent => Absent | Err => Err | Fault => Fault
+    end.
+  Definition sm2_pubkeyinfo_from_der (inp : list N) : res (sm2_key * list N) :=
+    match sm2_pubinfo_from_der inp with
+    | Ok (xy, rest) => Ok ({| k_priv := zeros 32; k_pub := xy |}, rest)
+    | Absent => Absent | Err => Err | Fault => Fault
+    end.
+  Definition sm2_privkey_from_der (inp : list N) : res (sm2_key * list N) :=
+    match sm2_priv_from_der inp with
+    | Ok (d, pub, rest) => Ok ({| k_priv := d; k_pub := pub |}, rest)
+    | Absent => Absent | Err => Err | Fault => Fault
+    end.
+
   (* sm2_private_key_info_decrypt_from_der as an interface: the attributes of the decrypted
      PrivateKeyInfo lie in the function's local plaintext buffer, which is cleared on return, so
      the call reports none ( *attrs = NULL, *attrs_len = 0 ). *)
